@@ -129,11 +129,28 @@ class Ctx:
                      'cannot resolve anchor %s (%d candidates)' % (what or path or suffix, len(cands)))
         return None
 
+    def step(self, f, *a, **kw):
+        """run one rule function; an exception in it is an undecided obligation of that rule family, the other rules still run"""
+        import traceback
+        try:
+            return f(*a, **kw)
+        except Exception:
+            tb = traceback.format_exc()
+            self.violation('ENGINE', 'rule-crash:' + getattr(f, '__name__', '?'),
+                           'a rule raised an exception; the analysed code left every shape the rule understands: ' + tb.splitlines()[-1], kind='undecided', detail=tb)
+            return None
+
     def finish_floors(self):
+        """a rule that analysed fewer instances than were counted on the pinned tree lost anchors.  When the shortfall is explained by
+        anchors reported missing / instances reported undecided for that rule it is part of the same (non-fatal) restructuring notice;
+        an UNEXPLAINED shortfall means the rule silently stopped seeing code it used to see and is fatal."""
         for rid, r in self.rules.items():
             if r['floor'] is not None and r['found'] < r['floor']:
-                self.violation(rid, 'floor', 'only %d instance(s) analysed, %d were confirmed by hand on the pinned tree: the rule lost its anchors' % (r['found'], r['floor']),
-                               kind='anchor-missing', count_instance=False)
+                explained = any(v['rule'] == rid and v['kind'] in ('anchor-missing', 'undecided') for v in self.violations) or \
+                    any(v['rule'] == 'ENGINE' for v in self.violations)
+                self.violation(rid, 'floor', 'only %d instance(s) analysed, %d were counted on the pinned tree: the rule lost its anchors%s' % (
+                    r['found'], r['floor'], '' if explained else ' and nothing explains it'),
+                    kind='anchor-missing' if explained else 'violation', count_instance=False)
 
     def count(self, name, n=1):
         self.counters[name] = self.counters.get(name, 0) + n
